@@ -93,6 +93,23 @@ enum Op {
     Enable { tok: usize, operator: Who, signer: Who },
     Disable { tok: usize, operator: Who, signer: Who },
     Advance(u32),
+    /// No call at all: on a throw-away copy of the state `IDLE` ledgers pass without any
+    /// invocation, then balances, call logs, the allow-list and (permissioned) the role
+    /// configuration are compared with the model again and the fee-token gate is exercised
+    /// (oracle `state-survives-idle`, see `Fw::idle_probe`). The explored instance is not touched.
+    IdleProbe,
+}
+
+/// Ledgers that pass in an idle probe: beyond every temporary-entry lifetime of the explored
+/// horizon (allowances live at most until now+1) and every TTL extension of the fee-abstraction
+/// module and the token base (FEE_ABSTRACTION_EXTEND_AMOUNT = BALANCE_EXTEND_AMOUNT = 30 days =
+/// 518400 ledgers), below the persistent TTL of `envx::mk_env` (3000000).
+const IDLE: u32 = 600_000;
+
+/// A disagreement found after the idle period: nothing was called in between, so whatever differs
+/// from the model was lost (or appeared) through the passage of time alone.
+fn idle_viol(v: Violation) -> Violation {
+    Violation::new("state-survives-idle", format!("after {IDLE} ledgers without any call [{}] {}", v.oracle, v.detail))
 }
 
 #[derive(Clone, Debug, PartialEq, Eq, Hash)]
@@ -349,7 +366,127 @@ impl Fw {
                 envx::advance(e, *k);
                 Ok(Val::VOID.into())
             }
+            Op::IdleProbe => Err(CallErr::Other("idle probe: no call".into())),
         }
+    }
+
+    /// The idle probe (see `Op::IdleProbe`); `m` is the model of the state before the probe.
+    ///
+    /// On a copy of the state on which `IDLE` ledgers have passed without any call:
+    ///   * every token balance and every target's call log equal the model's (allowances are
+    ///     excluded: they carry an expiration ledger and legitimately lapse);
+    ///   * the allow-list storage (Count, Token(i), TokenIndex(t)) and `is_allowed_fee_token`
+    ///     agree with the model set (`check_list`, unchanged);
+    ///   * permissioned forwarder: the admin is set, the manager still holds `manager`, the
+    ///     relayer still holds `executor`, the ordinary user holds neither;
+    ///   * the fee-token gate behaves as it did: a valid forward by U (fee 1, max 5, expiring in
+    ///     the ledger it is submitted in) with each fee token in turn has the same outcome and the
+    ///     same effect on balances and call logs as the same forwards on a second copy on which no
+    ///     time has passed (an expired pre-existing allowance only changes WHICH authorization the
+    ///     forwarder demands from the user, and the probe runs under recording authorization).
+    fn idle_probe(&self, m: &Model, cx: &mut StepCtx<Self>) -> Result<(), Violation> {
+        let op = Op::IdleProbe;
+        let copy = cx.rebuild();
+        let old = envx::now(&copy.e);
+        envx::advance(&copy.e, IDLE);
+        let e = &copy.e;
+        let mut n = 0u64;
+        let post = self.observe(&copy).map_err(idle_viol)?;
+        for t in 0..self.nt() {
+            for (a, who) in ACCTS.iter().enumerate() {
+                ensure!(
+                    post.bal[t][a] == m.obs.bal[t][a],
+                    "state-survives-idle",
+                    "after {} ledgers without any call (ledger {} -> {}): balance of {:?} in T{} is {}, it was {}",
+                    IDLE,
+                    old,
+                    old + IDLE,
+                    who,
+                    t + 1,
+                    post.bal[t][a],
+                    m.obs.bal[t][a]
+                );
+                n += 1;
+            }
+        }
+        for (k, t) in TGTS.iter().enumerate() {
+            ensure!(
+                post.logs[k] == m.obs.logs[k],
+                "state-survives-idle",
+                "after {} ledgers without any call: call log of target {:?} is {:?}, it was {:?}",
+                IDLE,
+                t,
+                post.logs[k],
+                m.obs.logs[k]
+            );
+            n += 1;
+        }
+        self.check_list(&copy, m, &op).map_err(idle_viol)?;
+        n += 1 + 2 * self.nt() as u64 + m.list.len() as u64;
+        if self.flavour == Flavour::Permissioned {
+            let role = |who: Who, r: &str| -> Result<Option<u32>, Violation> {
+                let v = view(e, &copy.fwd, "has_role", (copy.addr(who), Symbol::new(e, r)).into_val(e))
+                    .map_err(|x| Violation::new("state-survives-idle", format!("after {IDLE} ledgers without any call has_role({who:?}, {r}) fails: {x:?}")))?;
+                Ok(Option::<u32>::try_from_val(e, &v).expect("option u32"))
+            };
+            for (who, r, expect) in [(Who::M, "manager", true), (Who::R, "executor", true), (Who::U, "manager", false), (Who::U, "executor", false)] {
+                let got = role(who, r)?;
+                ensure!(
+                    got.is_some() == expect,
+                    "state-survives-idle",
+                    "after {} ledgers without any call has_role({:?}, {}) = {:?}; the constructor's configuration says {}",
+                    IDLE,
+                    who,
+                    r,
+                    got,
+                    expect
+                );
+                n += 1;
+            }
+            let adm = view(e, &copy.fwd, "get_admin", SVec::new(e)).ok().and_then(|v| Option::<Address>::try_from_val(e, &v).ok()).flatten();
+            ensure!(adm.is_some(), "state-survives-idle", "after {} ledgers without any call get_admin() = None", IDLE);
+            n += 1;
+        }
+        // the gate, differentially against a copy on which no time has passed
+        let fresh = cx.rebuild();
+        for tok in 0..self.nt() {
+            let fwd = |i: &Inst| {
+                let now = envx::now(&i.e);
+                let f = Op::Forward { user: Who::U, tok, fee: 1, max: 5, exp: now, rel: 0, tgt: Tgt::G, f: self.tf, x: X };
+                self.exec(i, &f).is_ok()
+            };
+            let (before, after) = (fwd(&fresh), fwd(&copy));
+            ensure!(
+                before == after,
+                "state-survives-idle",
+                "a valid forward by U with fee token T{} (allow-list {:?}) is {} at ledger {} but {} after {} ledgers without any call",
+                tok + 1,
+                m.list,
+                if before { "accepted" } else { "refused" },
+                old,
+                if after { "accepted" } else { "refused" },
+                IDLE
+            );
+            if after {
+                cx.stats.count("forwards accepted after long idle", 1);
+            }
+            n += 1;
+        }
+        let (a, b) = (self.observe(&fresh)?, self.observe(&copy).map_err(idle_viol)?);
+        ensure!(
+            a.bal == b.bal && a.logs == b.logs,
+            "state-survives-idle",
+            "the probe forwards leave balances {:?} / call logs {:?} when run at once, but {:?} / {:?} when run after {} ledgers without any call",
+            a.bal,
+            a.logs,
+            b.bal,
+            b.logs,
+            IDLE
+        );
+        n += 2;
+        cx.stats.count("idle-probes", 1);
+        cx.stats.count("getter-comparisons-after-long-idle", n);
+        Ok(())
     }
 
     fn observe(&self, i: &Inst) -> Result<Obs, Violation> {
@@ -750,6 +887,7 @@ impl World for Fw {
                 }
             }
         }
+        v.push(Op::IdleProbe);
         v
     }
 
@@ -786,6 +924,7 @@ impl World for Fw {
             Op::Enable { operator, signer, .. } => if *operator == Who::M && *signer == Who::M { "enable.by-manager" } else { "enable.not-by-manager" }.into(),
             Op::Disable { operator, signer, .. } => if *operator == Who::M && *signer == Who::M { "disable.by-manager" } else { "disable.not-by-manager" }.into(),
             Op::Advance(_) => "advance".into(),
+            Op::IdleProbe => "idle-probe".into(),
         }
     }
 
@@ -802,6 +941,10 @@ impl World for Fw {
     }
 
     fn step(&self, i: &mut Inst, m: &mut Model, op: &Op, cx: &mut StepCtx<Self>) -> Result<bool, Violation> {
+        if matches!(op, Op::IdleProbe) {
+            self.idle_probe(m, cx)?;
+            return Ok(false);
+        }
         let now = envx::now(&i.e);
         let res = self.exec(i, op);
         // the demanded trees must be read before any other invocation
@@ -865,6 +1008,7 @@ impl World for Fw {
                 m.list.remove(tok);
             }
             Op::Approve { .. } | Op::Advance(_) => {}
+            Op::IdleProbe => unreachable!(),
         }
         let post = self.observe(i)?;
         cx.stats.count("getter-comparisons", (self.nt() * (ACCTS.len() + OWNERS.len()) + TGTS.len()) as u64);
@@ -920,7 +1064,7 @@ fn main() {
     main_with(
         "C19",
         "model_checking",
-        "level-BFS over histories on the real fee-forwarder examples (permissionless = Eager, permissioned = Lazy + allow-list) with library tokens as fee tokens and a logging / failing target. forwards mode: forward(user in {U, relayer, forwarder}, fee in {-1,0,1,max,max+1}, max in {0,5[,i128::MAX]}, expiration in {now-1,now,now+1[,max_ttl+1]}, target ok/failing, fee token T1 [T2 for user U in the permissioned worlds]) x pre-existing allowance {none,4,5,6} [x advance], seeds {rich user, poor user} with empty allow-list, rich user with allow-list [T1] / [T2], target fn without/with own user authorization; lists mode: enable/disable of T1..T3[T4] by manager / non-manager with forward probes. After every accepted step all balances, allowances, call logs and the allow-list storage are compared with the model; every refused step must leave the storage digest of all contracts unchanged; every accepted forward is re-run from the rebuilt pre-state under enforcing authorization with the full set, every principal dropped / replaced by a bystander, and the user's tree tampered in each of {fee token, max fee, expiration, target, fn, argument}; non-trivial = distinct storage state reached through >=1 accepted call",
+        "level-BFS over histories on the real fee-forwarder examples (permissionless = Eager, permissioned = Lazy + allow-list) with library tokens as fee tokens and a logging / failing target. forwards mode: forward(user in {U, relayer, forwarder}, fee in {-1,0,1,max,max+1}, max in {0,5[,i128::MAX]}, expiration in {now-1,now,now+1[,max_ttl+1]}, target ok/failing, fee token T1 [T2 for user U in the permissioned worlds]) x pre-existing allowance {none,4,5,6} [x advance], seeds {rich user, poor user} with empty allow-list, rich user with allow-list [T1] / [T2], target fn without/with own user authorization; lists mode: enable/disable of T1..T3[T4] by manager / non-manager with forward probes. After every accepted step all balances, allowances, call logs and the allow-list storage are compared with the model; every refused step must leave the storage digest of all contracts unchanged; every accepted forward is re-run from the rebuilt pre-state under enforcing authorization with the full set, every principal dropped / replaced by a bystander, and the user's tree tampered in each of {fee token, max fee, expiration, target, fn, argument}; idle probe in every expanded state of every world: on a rebuilt copy 600000 ledgers pass without any call (beyond every temporary lifetime and FEE_ABSTRACTION_EXTEND_AMOUNT = 518400), then all balances, call logs, the allow-list storage and is_allowed_fee_token, and (permissioned) admin / manager / executor are unchanged (allowances, which carry an expiration ledger, are excluded) and a valid forward with each fee token has the same outcome and effect as on a copy on which no time has passed; non-trivial = distinct storage state reached through >=1 accepted call",
         |tier: Tier, r: &mut Runner| {
             let th = tier == Tier::Thorough;
             // one wall budget for the whole run (quick 38 s, thorough 540 s): the worlds run one
@@ -953,6 +1097,9 @@ fn main() {
                     ],
                 );
                 rep.require_counter(&[
+                    "idle-probes",
+                    "getter-comparisons-after-long-idle",
+                    "forwards accepted after long idle",
                     "auth.full-set-ok",
                     "auth.drop-refused",
                     "auth.bystander-refused",
